@@ -60,8 +60,8 @@ fn main() {
             let g = src::unhex(&args[3]).unwrap_or_else(|| usage());
             exit(replay(&args[2], &g, "<cmdline>"));
         }
-        "serve-disabled" => {
-            usage();
+        "serve" => {
+            sm9verif::props::c18::serve();
         }
         _ => usage(),
     }
@@ -139,6 +139,15 @@ fn run(id: &str, tier: Tier, child: bool) -> i32 {
         println!("INCONCLUSIVE: oracle self-test failed: {}", e);
         return 2;
     }
+    if def.id == "C18" && !child && !cfg!(debug_assertions) {
+        let exe = std::env::current_exe().unwrap();
+        let dbg = exe.parent().unwrap().parent().unwrap().join("dbg").join("sm9check");
+        if !dbg.exists() && std::env::var("SM9CHECK_DBG").is_err() {
+            println!("INCONCLUSIVE: dbg-profile binary {} missing", dbg.display());
+            return 2;
+        }
+    }
+    let t_total = std::time::Instant::now();
     let out = runner::run_prop(&def, tier, seed, cases_override);
 
     // second configuration (debug assertions + overflow checks): same check, same seed, dbg binary
@@ -198,6 +207,7 @@ fn run(id: &str, tier: Tier, child: bool) -> i32 {
     if dbg_violation.is_some() {
         ev["violations"] = json!(1);
     }
+    ev["wall_s"] = json!(t_total.elapsed().as_secs_f64());
     let _ = std::fs::create_dir_all(format!("{}/evidence", runner::VERIF_ROOT));
     let evp = format!("{}/evidence/{}.json", runner::VERIF_ROOT, def.id);
     if let Err(e) = std::fs::write(&evp, serde_json::to_string_pretty(&ev).unwrap()) {
@@ -217,6 +227,11 @@ fn run(id: &str, tier: Tier, child: bool) -> i32 {
     );
     if let Some(f) = &out.found {
         let path = runner::write_replay(def.id, f);
+        if f.failure.sig.starts_with("harness|") || f.failure.sig.starts_with("oracle|") {
+            // the machinery (not the library) is in trouble: never a violation, never a pass
+            println!("INCONCLUSIVE: {} [{}] (case saved to {})", f.failure.msg, f.failure.sig, path);
+            return 2;
+        }
         println!("failure: {}  [{}]", f.failure.msg, f.failure.sig);
         if let Some(d) = &f.desc {
             println!("case: {}", d);
